@@ -353,6 +353,36 @@ def concrete_suite(ctx):
         oks.append(abs(got_len - true_len) <= 0.06 * true_len)
     ctx.check(far >= 6, 'harness: enough segments far from the vertices of the bent path')
     ctx.check(all(oks), 'metre distances: away from the path vertices every segment is as long as its piece of the path (geodesic, within 6 percent)')
+    # variables stored in other dimension orders and memory layouts: (x, y, depth), and (depth, y, x) held column-major
+    rdata = numpy.arange(4 * 3 * 2, dtype=float).reshape(4, 3, 2) + 300
+    fdata = numpy.asfortranarray(numpy.arange(2 * 3 * 4, dtype=float).reshape(2, 3, 4) + 700)
+    ds5 = ds1.assign(trev=(('x', 'y', 'k'), rdata), tfort=(('k', 'y', 'x'), fdata))
+    tr5 = T.Transect(ds5, shapely.LineString(lines1[1]), depth='zc')
+    seg5 = tr5.segments
+    p_rev, p_fort = tr5.prepare_data_array_for_transect(ds5['trev']), tr5.prepare_data_array_for_transect(ds5['tfort'])
+    ctx.check(p_rev.dims[0] == 'k' and p_rev.shape == (2, len(seg5)) and all(
+        same(p_rev.values[k, si], rdata[int(sg.linear_index) % 4, int(sg.linear_index) // 4, k]) for si, sg in enumerate(seg5) for k in range(2)),
+        "prepared data holds, for each segment, the values of that segment's cell at every depth (variable stored (x, y, depth))")
+    ctx.check(p_fort.shape == (2, len(seg5)) and all(
+        same(p_fort.values[k, si], fdata[k, int(sg.linear_index) // 4, int(sg.linear_index) % 4]) for si, sg in enumerate(seg5) for k in range(2)),
+        "prepared data holds, for each segment, the values of that segment's cell at every depth (column-major array)")
+    # a curvilinear grid whose stored bounds have their horizontal dimensions the other way round (ignored, cells derived)
+    jj, ii = numpy.meshgrid(numpy.arange(3.0), numpy.arange(4.0), indexing='ij')
+    clat, clon = 10.0 + jj + 0.1 * ii, 100.0 + ii - 0.1 * jj
+    off = [(-1, -1), (1, -1), (1, 1), (-1, 1)]
+    blon = numpy.stack([clon + a * 0.5 - b * 0.05 for a, b in off], axis=-1).transpose(1, 0, 2).copy()
+    blat = numpy.stack([clat + a * 0.05 + b * 0.5 for a, b in off], axis=-1).transpose(1, 0, 2).copy()
+    ds6 = builders.cf2d(3, 4, lat=clat, lon=clon, lat_bounds=blat, lon_bounds=blon, bounds_dims=('x', 'y', 'four'),
+                        data_vars={'temp': (('k', 'y', 'x'), numpy.arange(24.0).reshape(2, 3, 4))})
+    ds6 = ds6.assign_coords(zc=(('k',), numpy.array([1.0, 3.0]), {'positive': 'down', 'long_name': 'depth', 'units': 'm'}))
+    ref6 = _geomref.check(ctx, ds6, ds6.ems)
+    tr6 = T.Transect(ds6, shapely.LineString([(99.8, 10.2), (103.1, 12.1)]), depth='zc')
+    p6 = tr6.prepare_data_array_for_transect(ds6['temp'])
+    for si, sg in enumerate(tr6.segments):
+        n = int(sg.linear_index)
+        mid = sg.intersection.interpolate(0.5, normalized=True)
+        ctx.check(ref6[n] is not None and ref6[n].buffer(1e-9).contains(mid) and float(p6.values[0, si]) == float(n),
+                  "a segment names the linear index, native index and polygon of its cell")
     # a long path through a fine grid: more than a thousand cells, each named once, in order
     nlong = 1200
     dsl = builders.cf1d(2, nlong, lat=numpy.array([10.0, 10.5]), lon=100.0 + numpy.arange(nlong) * 0.01,
